@@ -1870,6 +1870,25 @@ pub fn selftests() -> Vec<(&'static str, bool, String)> {
         30,
         None,
     );
+    let turnstile = |wake: &str| {
+        format!("(p (current-output-port)) (m (make-mutex)) (cv (make-condition-variable)) (ready #f) (first #t) (pr (lambda (l) (lock-mutex m) (if first (begin (set! first #f) (unlock-mutex m) (with-mutex m (display l p) (display #\\x0a p) (set! ready #t) ({wake} cv))) (begin (let loop () (unless ready (wait-condition-variable cv m) (loop))) (display l p) (display #\\x0a p) (unlock-mutex m)))))")
+    };
+    case(
+        "two waiters, one signal-condition-variable where a broadcast was needed: the waiter left asleep is found (deadlock)",
+        &w3,
+        wrap_program(&turnstile("signal-condition-variable"), "(call-with-relative-path pr)"),
+        None,
+        6000,
+        Some(&["deadlock"]),
+    );
+    case(
+        "two waiters, broadcast-condition-variable: nobody is left asleep",
+        &w3,
+        wrap_program(&turnstile("broadcast-condition-variable"), "(call-with-relative-path pr)"),
+        None,
+        3000,
+        None,
+    );
     case(
         "quote, pairs and association lists: evaluated; records queued per call and written under the lock",
         &w3,
